@@ -234,6 +234,9 @@ func genC04(t *rapid.T) c04Case {
 			if rapid.IntRange(0, 3).Draw(t, "ondir") == 0 {
 				op.Name = ""
 			}
+		case "mkdir", "symlink":
+			op.SetMode = rapid.IntRange(0, 2).Draw(t, "msetmode") == 0
+			op.Mode = rapid.SampledFrom([]uint32{0700, 0755, 0, 0555}).Draw(t, "mmode")
 		case "create":
 			// CREATE with explicit attributes (size, mode) on new and existing names
 			op.SetSize = rapid.IntRange(0, 2).Draw(t, "csetsize") == 0
